@@ -1,6 +1,7 @@
 package props
 
 import (
+	"errors"
 	"strconv"
 	"bytes"
 	"context"
@@ -29,6 +30,7 @@ type pingCall struct {
 	retAt       time.Duration
 	err         error
 	done        bool
+	early       bool // failed with a deadline error while its own context was alive
 }
 
 type pongSent struct {
@@ -89,6 +91,10 @@ func runC15(r *Run) {
 	// peer sends pings between receiving the library's Close frame and echoing it:
 	// the connection is still being read, so they have to be answered
 	lateMode := t.Pct(30) && !stallFirst && policy != 6
+	// the delayed policy answers after 2 s, or after more than any time limit the
+	// library may apply to its own control frames: a Ping whose context outlives
+	// the delay still has to wait for its pong
+	pongDelay := []time.Duration{2 * time.Second, 6500 * time.Millisecond}[t.Draw(2)]
 	lateSent, lateN := false, 1+t.Draw(3)
 	// mixed: half of the stall-first runs have no guessed pongs and give every
 	// other first-round ping a context that outlives the stall, so that some pings
@@ -147,6 +153,7 @@ func runC15(r *Run) {
 			pc.invoke, pc.invokeAt = r.S.Step(), r.S.Now()
 			pc.err = c.Ping(ctx)
 			pc.ret, pc.retAt = r.S.Step(), r.S.Now()
+			pc.early = pc.err != nil && ctx.Err() == nil && errors.Is(pc.err, context.DeadlineExceeded)
 			pc.done = true
 		})
 	}
@@ -299,7 +306,7 @@ func runC15(r *Run) {
 					}
 					sendPong(p)
 				case 6:
-					r.S.Sleep(2 * time.Second)
+					r.S.Sleep(pongDelay)
 					sendPong(p)
 				case 7:
 				case 8:
@@ -484,6 +491,30 @@ func runC15(r *Run) {
 	}
 	if len(okCalls) > 0 {
 		r.S.Count("probe.ping-ok")
+	}
+	// a Ping whose frame went out gives up only when its own context ends or the
+	// connection closes: a deadline error while the caller's context is alive,
+	// with every invoked call's Ping frame already at the peer, is neither
+	for _, pc := range calls {
+		if !pc.early {
+			continue
+		}
+		frames, invoked := 0, 0
+		for _, sp := range seenPings {
+			if sp.step < pc.ret {
+				frames++
+			}
+		}
+		for _, o := range calls {
+			if o.invoke > 0 && o.invoke <= pc.ret {
+				invoked++
+			}
+		}
+		if frames >= invoked {
+			r.Violate("ping-error-before-context-end", sig, "%s returned %v after %v although its context lasts %v, its Ping frame had reached the peer and the connection was open", pc.name, pc.err, pc.retAt-pc.invokeAt, pc.timeout)
+		} else {
+			r.S.Count("probe.ping-write-timed-out")
+		}
 	}
 	if policy == 7 && !unsolicited && len(okCalls) > 0 {
 		r.Violate("ping-nil-without-own-pong", sig, "no pong was ever sent for a library ping, but %d Ping calls returned nil", len(okCalls))
